@@ -230,8 +230,7 @@ class IBase(RiscvInstruction):
         tokens[0][7:12] = self.rd.num
         tokens[0][12:15] = self.func
         tokens[0][15:20] = self.rs1.num
-        self.offset = self.offset & 0xFFF
-        tokens[0][20:32] = self.offset
+        tokens[0][20:32] = self.offset & 0xFFF
         return tokens[0].encode()
 
 
